@@ -12,7 +12,8 @@ RULE = ("put-level scenarios emitted by the exhaustive TLC runs of RoutingMC (ev
         "class.  A scenario is non-trivial when it exercises a clause antecedent: end device next to a table entry, "
         "empty table, unknown flow with/without default, flow id = number of outputs, hub port device, hub sender "
         "excluded, header rewrite before/after the put returned, dictionary-valued header rewrite, a downstream "
-        "device that raises, reverse (ACK) tables, flows sharing a class; distinct = distinct scenario objects")
+        "device that raises, a configuration change between two puts (and the same flow / sender exercised before and after "
+        "it), reverse (ACK) tables, flows sharing a class; distinct = distinct scenario objects")
 
 NF = 12
 SCALARS = list(range(1, 11))
@@ -31,6 +32,9 @@ def mc_all(ctx):
         "hub": ("EnvPut", "DoDeliver", "DoPortForward", "DoReturn"),
         "hublive": ("EnvPut", "DoDeliver", "DoPortForward", "DoReturn"),
         "split": ("EnvPut", "DoDeliver", "DoReturn", "EnvModify"),
+        "reconf": ("EnvPut", "DoDeliver", "DoReturn", "EnvSetEntry", "EnvDelEntry", "EnvReplaceTable", "EnvAppendOut",
+                   "EnvSetEnd", "EnvDelEnd", "EnvSetDefault"),
+        "reconfhub": ("EnvPut", "DoDeliver", "DoPortForward", "DoReturn", "EnvAddEndpoint"),
     }
     cfgs = {}
     for name in acts:
@@ -39,6 +43,10 @@ def mc_all(ctx):
             text = text.replace("MaxFlow = 3", "MaxFlow = 4")
         if big and name == "boom":
             text = text.replace("MaxFlow = 2", "MaxFlow = 3").replace("MaxOuts = 2", "MaxOuts = 3")
+        if big and name == "reconf":
+            text = text.replace("MaxPuts = 2", "MaxPuts = 3")
+        if big and name == "reconfhub":
+            text = text.replace("MaxReconf = 1", "MaxReconf = 2")
         if big and name == "hublive":
             text = text.replace("MaxOuts = 3", "MaxOuts = 4")
         cfgs[name] = text
@@ -70,6 +78,16 @@ def group_emitted(results):
     for name, r in results.items():
         for w in r.emitted():
             cfg = w["cfg"]
+            if w.get("script"):
+                steps = []
+                for st in w["script"]:
+                    if st["op"] == "put":
+                        steps.append({"op": "put", "f": st["f"], "s": st["p"], "mods": []})
+                    else:
+                        steps.append({"op": st["op"], "f": st["f"], "p": st["p"], "tb": st["tb"]})
+                key = json.dumps([cfg, steps], sort_keys=True)
+                by[key] = {"cfg": cfg, "steps": steps, "puts": {}, "tier": name}
+                continue
             key = json.dumps(cfg, sort_keys=True)
             put = {"f": w["f"], "s": w["s"], "mods": w["mods"]}
             ent = by.setdefault(key, {"cfg": cfg, "puts": {}, "tier": name})
@@ -77,6 +95,9 @@ def group_emitted(results):
     res = []
     for key in sorted(by):
         e = by[key]
+        if "steps" in e:
+            res.append({"cfg": e["cfg"], "steps": e["steps"], "puts": [], "tier": e["tier"]})
+            continue
         res.append({"cfg": e["cfg"], "puts": [e["puts"][k] for k in sorted(e["puts"])], "tier": e["tier"]})
     return res
 
@@ -101,10 +122,27 @@ def style_for(ctx, cfg):
     return st
 
 
+def flows_needed(cfg, steps):
+    fl = [f for f, _ in cfg["table"]] + list(cfg["ends"]) + [0]
+    for st in steps:
+        fl.append(st.get("f", 0))
+        fl += [f for f, _ in st.get("tb", [])]
+    return 1 + max(fl)
+
+
+def steps_of(sc):
+    return sc["steps"] if sc.get("steps") is not None else [dict(p, op="put") for p in sc["puts"]]
+
+
 def decorate(ctx, e):
     """TLC-emitted scenario -> driver scenario (model header fields 1/2 -> a real scalar / dictionary field)."""
     rng = ctx.rng
     cfg = {k: v for k, v in e["cfg"].items() if k != "dictk"}
+    if "steps" in e:
+        sc = {"fam": "routing", "cfg": cfg, "steps": e["steps"], "style": style_for(ctx, cfg), "origin": "tlc/" + e.get("tier", "")}
+        if cfg["kind"] == "fair":
+            sc["style"]["nflow"] = flows_needed(cfg, e["steps"])
+        return sc
     puts = []
     for p in e["puts"]:
         mods = []
@@ -145,7 +183,7 @@ def random_scenario(ctx):
         flows = rng.sample(range(0, 14), rng.randint(0, 8))
         cfg = base_cfg(kind, n)
         cfg["dflt"] = rng.choice([0, 1])
-        cfg["table"] = sorted([f, rng.randint(1, n)] for f in flows if n > 0 and rng.random() < 0.7)
+        cfg["table"] = sorted([f, rng.randint(1, n + (2 if rng.random() < 0.2 else 0))] for f in flows if n > 0 and rng.random() < 0.7)
         if rng.random() < 0.15:
             cfg["table"] = []
         cfg["ends"] = sorted(f for f in rng.sample(range(0, 14), rng.randint(0, 4)))
@@ -181,14 +219,112 @@ def random_scenario(ctx):
     sc = {"fam": "routing", "cfg": cfg, "puts": puts, "style": style_for(ctx, cfg), "origin": "random"}
     if kind == "fair":
         sc["style"]["nflow"] = 16
+    if kind in ("flow", "fib", "fair", "hub") and rng.random() < 0.5:
+        sc["steps"] = with_reconfiguration(ctx, cfg, puts)
+        sc["puts"] = []
     return sc
+
+
+def with_reconfiguration(ctx, cfg, puts):
+    """Interleave the puts with configuration changes made through the public API; around each change the flow /
+    sender it concerns is exercised (before: so that whatever the element may have remembered is stale afterwards)."""
+    rng = ctx.rng
+    kind = cfg["kind"]
+    n = cfg["nouts"]
+    table = {f: p for f, p in cfg["table"]}
+    ends = set(cfg["ends"])
+    steps = []
+    todo = [dict(p, op="put") for p in puts]
+
+    def put(f, s=0):
+        steps.append({"op": "put", "f": f, "s": s, "mods": []})
+
+    for _ in range(rng.randint(1, 4)):
+        for _ in range(rng.randint(0, 2)):
+            if todo:
+                steps.append(todo.pop(0))
+        if kind == "hub":
+            s = rng.randint(0, n)
+            if rng.random() < 0.8:
+                put(0, s)
+            steps.append({"op": "join", "f": 0, "p": rng.choice([0, 1]), "tb": []})
+            n += 1
+            if rng.random() < 0.9:
+                put(0, s)
+            if rng.random() < 0.5:
+                put(0, n)
+            continue
+        ops = ["out", "dflt"] if kind == "flow" else ["set", "set", "del", "table", "end", "unend", "dflt"] + (["out", "out"] if kind == "fib" else [])
+        op = rng.choice(ops)
+        f = rng.randint(0, 15) if rng.random() < 0.5 or not table else rng.choice(sorted(table))
+        if kind == "flow":
+            f = n if op == "out" else rng.randint(0, n + 1)
+        if op == "out":
+            cands = [g for g, p in table.items() if p == n + 1]
+            if kind == "fib" and cands and rng.random() < 0.8:
+                f = rng.choice(cands)
+        if op == "del":
+            if not table:
+                continue
+            f = rng.choice(sorted(table))
+        if op == "unend":
+            if not ends:
+                continue
+            f = rng.choice(sorted(ends))
+        if op == "end" and f in ends:
+            continue
+        if rng.random() < 0.8:
+            put(f)
+        if op == "set":
+            p = rng.randint(1, n + (1 if kind == "fib" and rng.random() < 0.3 else 0)) if n else 1
+            table[f] = p
+            steps.append({"op": "set", "f": f, "p": p, "tb": []})
+        elif op == "del":
+            del table[f]
+            steps.append({"op": "del", "f": f, "p": 0, "tb": []})
+        elif op == "table":
+            table = {g: rng.randint(1, max(1, n)) for g in rng.sample(range(0, 14), rng.randint(0, 5))}
+            if rng.random() < 0.7:
+                table[f] = rng.randint(1, max(1, n))
+            steps.append({"op": "table", "f": 0, "p": 0, "tb": sorted([g, p] for g, p in table.items())})
+        elif op == "out":
+            n += 1
+            steps.append({"op": "out", "f": 0, "p": 0, "tb": []})
+        elif op == "end":
+            ends.add(f)
+            steps.append({"op": "end", "f": f, "p": 0, "tb": []})
+        elif op == "unend":
+            ends.discard(f)
+            steps.append({"op": "unend", "f": f, "p": 0, "tb": []})
+        elif op == "dflt":
+            steps.append({"op": "dflt", "f": 0, "p": rng.choice([0, 1]), "tb": []})
+        if rng.random() < 0.9:
+            put(f)
+    return steps + todo
 
 
 def classify_routing(ctx, sc, tr):
     cfg = sc["cfg"]
     kinds = set()
     tab = {f for f, _ in cfg["table"]}
-    for p in sc["puts"]:
+    steps = steps_of(sc)
+    if any(st["op"] != "put" for st in steps):
+        kinds.add("reconfigured_between_puts")
+        seen_before = set()
+        changed = False
+        for st in steps:
+            if st["op"] == "put":
+                key = (st["f"], st.get("s", 0))
+                if changed and key in seen_before:
+                    kinds.add("same_flow_or_sender_before_and_after_a_change")
+                seen_before.add(key)
+            else:
+                changed = True
+                kinds.add("reconf_" + st["op"])
+        for k in kinds:
+            ctx.count(k)
+        return
+    for p in steps:
         f = p["f"]
         if cfg["kind"] in ("fib", "fair"):
             if f in cfg["ends"] and f in tab:
@@ -350,8 +486,8 @@ def run(ctx, replay=None):
         emitted = group_emitted(res)
         ctx.extra["scenarios_emitted_by_tlc"] = len(emitted)
         ctx.extra["puts_emitted_by_tlc"] = sum(len(e["puts"]) for e in emitted)
-        quota = {"demux": 1500, "boom": 500, "hub": 100, "hublive": 0, "split": 40} if ctx.quick else \
-                {"demux": 40000, "boom": 8000, "hub": 400, "hublive": 100, "split": 200}
+        quota = {"demux": 1500, "boom": 500, "hub": 100, "hublive": 0, "split": 40, "reconf": 1500, "reconfhub": 300} if ctx.quick else \
+                {"demux": 40000, "boom": 8000, "hub": 400, "hublive": 100, "split": 200, "reconf": 40000, "reconfhub": 5000}
         ctx.rng.shuffle(emitted)
         taken = {}
         for e in emitted:
@@ -391,7 +527,11 @@ def run(ctx, replay=None):
     ctx.extra["distinct_scenarios"] = n_distinct
     return ctx.finish(RULE, assumptions=[
         "untimed: only which recording device saw which packet object (and its header fields) is judged, not when",
-        "flow ids are non-negative integers; forwarding tables name existing ports (1..number of outputs)",
+        "flow ids are non-negative integers; a table entry naming a port that does not exist (yet) is treated as no usable "
+        "entry (default output, else nowhere)",
+        "configuration changes (table entry set/deleted in place, new table through the fib setter, outs.append, "
+        "ends[f] set/deleted, default_out changed, hub.add_endpoint) happen between puts, never during one; every put is "
+        "judged against the configuration in force when it is made",
         "a downstream device that raises may abort the put or be ignored by the element; either way the packet must not "
         "be handed to any output the rules do not name",
         "FairPacketSwitch is exercised with DRR, WFQ, SP and VirtualClock servers and one class per flow (shared classes only in the "
